@@ -1,94 +1,173 @@
-import NeverModel.Lemmas.VerLocal
-import NeverModel.Lemmas.VmStkSound
+import NeverModel.Lemmas.VerWrite
 set_option linter.unusedSimpArgs false
 set_option linter.unusedVariables false
 /-! calls and returns: the frame records MARK pushes, as a ghost list beside the machine; the global invariant -/
 namespace Never.Ver
 open Never Never.Vm
 
-/-- `pp` is the bottom value or the position of a live record (the one the running function was entered through) -/
-def PPIn (bot pp : Int) (recs : List Rec) : Prop := pp = bot ∨ ∃ r, r ∈ recs ∧ r.F = pp
-
-/-- the three words RET reads through are in place, and returning through the record lands at the recorded height of its
-return address: `F − 4`, the slot the result is copied to, is `pp_saved + nparams + h(ra)` -/
+/-- the three words RET reads through are in place; returning through the record lands at the recorded height of its return
+address (`F − 4`, the slot the result is copied to, is `pp_saved + nparams + h(ra)`); no run of `INT` pushes continues there -/
 def RecData (md : Module) (hm : HMap) (vm : Vm) (r : Rec) : Prop :=
   slot vm (r.F - 4) = .stk r.pp ∧ slot vm (r.F - 1) = .stk r.fp ∧ slot vm r.F = .ip r.ra ∧
-  ∃ st, hm[r.ra]? = some (some st) ∧ r.F - 4 = r.pp + (fnParamsAt md r.ra : Int) + (st.h : Int)
+  (∃ st, hm[r.ra]? = some (some st) ∧ r.F - 4 = r.pp + (fnParamsAt md r.ra : Int) + (st.h : Int)) ∧ intRun md r.ra = []
 
-/-- the live records, innermost first, form the chain RET walks: each saved `fp` is the record below, each saved `pp` a record
-below (or the bottom value) -/
+/-- the live records lie one below the other, five words apart at least (innermost first) -/
+def Desc5 : List Rec → Prop
+  | [] => True
+  | r :: rs => (∀ x, x ∈ rs → x.F + 5 ≤ r.F) ∧ Desc5 rs
+
+/-- the live records seen from a function with frame base `pp`, parameters up to `base = pp + nparams` and the calls `ms` in
+preparation: first the pending records of these calls, at the heights `ms` say, then the record the function was entered through
+(`F = pp`; none at the bottom of the run) and the records of its callers -/
+def Split (bot pp base : Int) (ms : List Nat) (recs : List Rec) : Prop :=
+  ∃ pend rest, recs = pend ++ rest ∧ pend.map (·.F) = ms.map (fun (m : Nat) => base + (m : Int) + 5) ∧ topF bot rest = pp
+
+/-- the same at a handler entry, where the pending records are only known to lie above `pp` (CLEAR_STACK will drop them) -/
+def SplitH (bot pp : Int) (recs : List Rec) : Prop :=
+  ∃ pend rest, recs = pend ++ rest ∧ (∀ r, r ∈ pend → pp < r.F) ∧ topF bot rest = pp
+
+/-- the live records, innermost first, form the chain RET walks: each saved `fp` is the record below, each record is intact, and
+the records below it are what the function that pushed it will find when the call returns -/
 def WF (md : Module) (hm : HMap) (bot : Int) (vm : Vm) : List Rec → Prop
   | [] => True
-  | r :: rs => r.fp = topF bot rs ∧ PPIn bot r.pp rs ∧ RecData md hm vm r ∧ WF md hm bot vm rs
+  | r :: rs => r.fp = topF bot rs ∧ RecData md hm vm r ∧
+      Split bot r.pp (r.pp + (fnParamsAt md r.ra : Int)) (marksAt hm r.ra) rs ∧ WF md hm bot vm rs
 
-/-- **the global invariant**: the stack array has its size; the machine is at its recorded height or at a handler entry; `fp` and
-`pp` are what the live records say; the records are intact -/
+/-- the machine is at the recorded height of its address; the live records are those of the calls in preparation there, then the
+callers'; the slots above hold the constants of the `INT` run that ends at `ip` -/
+structure Here (md : Module) (hm : HMap) (bot : Int) (vm : Vm) (recs : List Rec) : Prop where
+  height : AtHeight md hm vm
+  split : Split bot vm.pp (vm.pp + (fnParamsAt md vm.ip : Int)) (marksAt hm vm.ip) recs
+  consts : stackInts vm (intRun md vm.ip).length vm.sp = some (intRun md vm.ip)
+
+/-- **the global invariant**: the stack array has its size; `fp` is the innermost live record; the live records are apart, intact and
+chained; and the machine is at its recorded height (`Here`) or at a handler entry with the pending records above `pp` -/
 def Sound (md : Module) (hm : HMap) (bot : Int) (vm : Vm) (recs : List Rec) : Prop :=
-  StackOk vm ∧ Good md hm vm ∧ vm.fp = topF bot recs ∧ PPIn bot vm.pp recs ∧ WF md hm bot vm recs
+  StackOk vm ∧ vm.fp = topF bot recs ∧ Desc5 recs ∧ WF md hm bot vm recs ∧
+  (Here md hm bot vm recs ∨ (AtHandler md hm vm ∧ SplitH bot vm.pp recs))
 
 /-- "function objects hold entry addresses of functions of the right arity": the function value a CALL finds is nil (address 0:
 the VM raises nil_pointer) or the entry of a function with as many parameters as arguments lie above the frame record -/
 def CallOk (md : Module) (vm : Vm) : Prop :=
   ∀ env fip, calleeOf vm = some (env, fip) → fip = 0 ∨ (fip ∈ funcStarts md ∧ vm.sp - 1 = vm.fp + (fnParamsAt md fip : Int))
 
-/-- the side conditions of one step that the verifier does not establish:
- * "frame words are not overwritten": the three words of every record that stays live are unchanged by the step;
- * a CALL finds a function value of the right arity (`CallOk`: type soundness of the compiler);
- * a RET / RETHROW finds a live record (the run has not returned from the activation it started in);
- * MK_INIT_ARRAY finds the extents the verifier recorded (its constant propagation) -/
-def StepOk (md : Module) (hm : HMap) (vm vm' : Vm) (recs : List Rec) : Prop :=
-  (∀ r, r ∈ recs → r ∈ ghostNext md vm recs →
-     slot vm' (r.F - 4) = slot vm (r.F - 4) ∧ slot vm' (r.F - 1) = slot vm (r.F - 1) ∧ slot vm' r.F = slot vm r.F) ∧
-  (∀ i, md.code[vm.ip]? = some i →
-     (i.op = .CALL → CallOk md vm) ∧
+/-- **the arity condition, as a statement about the function value alone**: the function object a CALL finds on top of the stack holds
+the nil address, or the entry address of a function whose parameter count is the number of arguments this call site passes
+(`callArgs`, a static property of the site read off the certificate).  Nothing about registers or the stack layout is assumed:
+in a state satisfying the invariant it implies `CallOk` (`calleeArity_callOk`). -/
+def CalleeArity (md : Module) (hm : HMap) (vm : Vm) : Prop :=
+  ∀ env fip, calleeOf vm = some (env, fip) → fip = 0 ∨ (fip ∈ funcStarts md ∧ fnParamsAt md fip = callArgs md hm vm.ip)
+
+/-- the allocator hands out a free cell inside the heap (or the heap is exhausted and the allocation fails) -/
+def AllocFresh (vm : Vm) : Prop := vm.gc.free = 0 ∨ (vm.gc.free < vm.gc.mem.size ∧ vm.gc.mem.objAt vm.gc.free = none)
+
+/-- the side conditions of one step that the verifier cannot establish (both are consequences of type soundness, see Props/C07):
+ * a CALL finds a function value of the arity of its call site (`CalleeArity`);
+ * an `INT` is handed a free cell by the allocator (`AllocFresh`: the collector's free list holds free cells — C09 proves it of
+   every history of well-typed heap operations);
+and, as a matter of where the considered run starts, a RET / RETHROW finds a live record (the run has not returned from the
+activation it started in). -/
+def StepOk (md : Module) (hm : HMap) (vm : Vm) (recs : List Rec) : Prop :=
+  ∀ i, md.code[vm.ip]? = some i →
+     (i.op = .CALL → CalleeArity md hm vm) ∧
      ((i.op = .RET ∨ i.op = .RETHROW) → recs ≠ []) ∧
-     (i.op = .MK_INIT_ARRAY → ∀ st, hm[vm.ip]? = some (some st) → stackInts vm i.w0 vm.sp = initExts st i.w0))
+     (i.op = .INT → AllocFresh vm)
 
 section
 variable {md : Module} {hm : HMap} {bot : Int}
 
-theorem PPIn.cons {pp : Int} {recs : List Rec} (r : Rec) (h : PPIn bot pp recs) : PPIn bot pp (r :: recs) := by
-  rcases h with h | ⟨x, hx, e⟩
-  · exact Or.inl h
-  · exact Or.inr ⟨x, List.mem_cons_of_mem _ hx, e⟩
+/-! ### lists of records -/
 
-theorem PPIn_topF (recs : List Rec) : PPIn bot (topF bot recs) recs := by
-  cases recs with
-  | nil => exact Or.inl rfl
-  | cons r rs => exact Or.inr ⟨r, List.mem_cons_self, rfl⟩
+theorem Split.toH {pp base : Int} {ms : List Nat} {recs : List Rec} (h : Split bot pp base ms recs) (hb : pp ≤ base) : SplitH bot pp recs := by
+  obtain ⟨pend, rest, e, hF, ht⟩ := h
+  refine ⟨pend, rest, e, fun r hr => ?_, ht⟩
+  have : r.F ∈ pend.map (·.F) := List.mem_map_of_mem hr
+  rw [hF] at this
+  obtain ⟨m, _, hm⟩ := List.mem_map.mp this
+  omega
 
-theorem topF_dropWhile {pp : Int} : ∀ (recs : List Rec), PPIn bot pp recs →
-    topF bot (recs.dropWhile (fun r => decide (r.F ≠ pp))) = pp ∧ PPIn bot pp (recs.dropWhile (fun r => decide (r.F ≠ pp))) := by
-  intro recs
-  induction recs with
+/-- every live record lies at or below `recTop` -/
+theorem Split.le_top {pp base : Int} {ms : List Nat} {recs : List Rec} (h : Split bot pp base ms recs) (hd : Desc5 recs) :
+    ∀ r, r ∈ recs → r.F ≤ recTop pp base ms := by
+  obtain ⟨pend, rest, e, hF, ht⟩ := h
+  cases ms with
   | nil =>
-    intro h
-    rcases h with h | ⟨x, hx, _⟩
-    · exact ⟨h.symm, Or.inl h⟩
-    · cases hx
-  | cons r rs ih =>
-    intro h
-    by_cases hr : r.F = pp
-    · have : (decide (r.F ≠ pp)) = false := by simp [hr]
-      rw [List.dropWhile_cons_of_neg (by simp [hr])]
-      exact ⟨hr, Or.inr ⟨r, List.mem_cons_self, hr⟩⟩
-    · rw [List.dropWhile_cons_of_pos (by simp [hr])]
-      apply ih
-      rcases h with h | ⟨x, hx, e⟩
-      · exact Or.inl h
-      · rcases List.mem_cons.mp hx with rfl | hx'
-        · exact absurd e hr
-        · exact Or.inr ⟨x, hx', e⟩
+    have hp : pend = [] := by cases pend with | nil => rfl | cons p ps => simp at hF
+    subst hp
+    simp only [List.nil_append] at e
+    subst e
+    intro r hr
+    cases recs with
+    | nil => cases hr
+    | cons r0 t =>
+      simp only [topF] at ht
+      simp only [recTop]
+      rcases List.mem_cons.mp hr with rfl | hr'
+      · omega
+      · have := hd.1 r hr'; omega
+  | cons m ms' =>
+    cases pend with
+    | nil => simp at hF
+    | cons p0 ps =>
+      simp only [List.map_cons, List.cons.injEq] at hF
+      subst e
+      intro r hr
+      simp only [recTop]
+      rcases List.mem_cons.mp hr with rfl | hr'
+      · omega
+      · have := hd.1 r hr'; omega
 
-theorem WF_dropWhile {vm : Vm} (p : Rec → Bool) : ∀ (recs : List Rec), WF md hm bot vm recs → WF md hm bot vm (recs.dropWhile p) := by
+theorem Desc5.tail {r : Rec} {rs : List Rec} (h : Desc5 (r :: rs)) : Desc5 rs := h.2
+
+theorem Desc5.dropWhile (p : Rec → Bool) : ∀ (recs : List Rec), Desc5 recs → Desc5 (recs.dropWhile p) := by
   intro recs
   induction recs with
   | nil => intro h; exact h
   | cons r rs ih =>
     intro h
     by_cases hp : p r = true
-    · rw [List.dropWhile_cons_of_pos hp]; exact ih h.2.2.2
+    · rw [List.dropWhile_cons_of_pos hp]; exact ih h.2
     · rw [List.dropWhile_cons_of_neg hp]; exact h
+
+/-- CLEAR_STACK's `fp := pp` drops exactly the pending records -/
+theorem SplitH.dropWhile {pp : Int} {recs : List Rec} (h : SplitH bot pp recs) :
+    ∃ rest, recs.dropWhile (fun r => decide (r.F ≠ pp)) = rest ∧ topF bot rest = pp ∧ rest <:+ recs := by
+  obtain ⟨pend, rest, e, hp, ht⟩ := h
+  refine ⟨rest, ?_, ht, by rw [e]; exact List.suffix_append _ _⟩
+  subst e
+  induction pend with
+  | nil =>
+    simp only [List.nil_append]
+    cases rest with
+    | nil => rfl
+    | cons r0 t =>
+      simp only [topF] at ht
+      rw [List.dropWhile_cons_of_neg (by simp [ht])]
+  | cons p ps ih =>
+    have : p.F ≠ pp := by have := hp p List.mem_cons_self; omega
+    simp only [List.cons_append]
+    rw [List.dropWhile_cons_of_pos (by simp [this])]
+    exact ih (fun r hr => hp r (List.mem_cons_of_mem _ hr))
+
+theorem WF_suffix {vm : Vm} : ∀ (recs rest : List Rec), rest <:+ recs → WF md hm bot vm recs → WF md hm bot vm rest := by
+  intro recs
+  induction recs with
+  | nil => intro rest hs h; have := List.suffix_nil.mp hs; subst this; exact h
+  | cons r rs ih =>
+    intro rest hs h
+    rcases List.suffix_cons_iff.mp hs with e | hs'
+    · subst e; exact h
+    · exact ih rest hs' h.2.2.2
+
+theorem Desc5_suffix : ∀ (recs rest : List Rec), rest <:+ recs → Desc5 recs → Desc5 rest := by
+  intro recs
+  induction recs with
+  | nil => intro rest hs h; have := List.suffix_nil.mp hs; subst this; exact h
+  | cons r rs ih =>
+    intro rest hs h
+    rcases List.suffix_cons_iff.mp hs with e | hs'
+    · subst e; exact h
+    · exact ih rest hs' h.2
 
 /-- records whose words are unchanged stay well-formed -/
 theorem WF_transfer {vm vm' : Vm} : ∀ (recs : List Rec), WF md hm bot vm recs →
@@ -99,10 +178,191 @@ theorem WF_transfer {vm vm' : Vm} : ∀ (recs : List Rec), WF md hm bot vm recs 
   | nil => intro _ _; trivial
   | cons r rs ih =>
     intro h hk
-    obtain ⟨h1, h2, ⟨d1, d2, d3, d4⟩, h4⟩ := h
+    obtain ⟨h1, ⟨d1, d2, d3, d4, d5⟩, h3, h4⟩ := h
     obtain ⟨k1, k2, k3⟩ := hk r List.mem_cons_self
-    exact ⟨h1, h2, ⟨by rw [k1]; exact d1, by rw [k2]; exact d2, by rw [k3]; exact d3, d4⟩,
+    exact ⟨h1, ⟨by rw [k1]; exact d1, by rw [k2]; exact d2, by rw [k3]; exact d3, d4, d5⟩, h3,
       ih h4 (fun x hx => hk x (List.mem_cons_of_mem _ hx))⟩
+
+/-- slots at or below a bound unchanged ⇒ the words of every record at or below the bound unchanged -/
+theorem words_of_below {vm vm' : Vm} {b : Int} (hk : ∀ j, j ≤ b → slot vm' j = slot vm j) (r : Rec) (hr : r.F ≤ b) :
+    slot vm' (r.F - 4) = slot vm (r.F - 4) ∧ slot vm' (r.F - 1) = slot vm (r.F - 1) ∧ slot vm' r.F = slot vm r.F :=
+  ⟨hk _ (by omega), hk _ (by omega), hk _ hr⟩
+
+theorem words_of_stack_eq {vm vm' : Vm} (h : vm'.stack = vm.stack) (r : Rec) :
+    slot vm' (r.F - 4) = slot vm (r.F - 4) ∧ slot vm' (r.F - 1) = slot vm (r.F - 1) ∧ slot vm' r.F = slot vm r.F := by
+  unfold slot; rw [h]; exact ⟨rfl, rfl, rfl⟩
+
+
+/-! ### `INT` and the constants of an `INT` run -/
+
+theorem stackInts_zero (vm : Vm) (s : Int) : stackInts vm 0 s = some [] := rfl
+
+theorem stackInts_take (vm : Vm) : ∀ (n : Nat) (s : Int) (l : List Int), stackInts vm n s = some l → ∀ k, k ≤ n → stackInts vm k s = some (l.take k) := by
+  intro n
+  induction n with
+  | zero => intro s l h k hk; have : k = 0 := by omega
+            subst this; simp [stackInts_zero]
+  | succ n ih =>
+    intro s l h k hk
+    cases k with
+    | zero => simp [stackInts_zero]
+    | succ k =>
+      unfold stackInts at h ⊢
+      split at h
+      · cases h
+      · rename_i hb
+        rw [if_neg hb]
+        simp only at h ⊢
+        split at h
+        · cases h
+        · rename_i hsz
+          rw [if_neg hsz]
+          split at h
+          · rename_i v hv
+            cases hr : stackInts vm n (s - 1) with
+            | none => rw [hr] at h; cases h
+            | some l' =>
+              rw [hr] at h
+              simp only [Option.map_some, Option.some.injEq] at h
+              subst h
+              rw [ih _ _ hr k (by omega)]
+              simp
+          · cases h
+
+/-- a machine that differs only above slot `s` and in cells that were free reads the same integers from the top `k` slots -/
+theorem stackInts_mono {vm vm2 : Vm} (hsz : vm2.stackSize = vm.stackSize) (hms : vm2.gc.mem.size = vm.gc.mem.size)
+    (hobj : ∀ a, vm.gc.mem.objAt a ≠ none → vm2.gc.mem.objAt a = vm.gc.mem.objAt a) :
+    ∀ (k : Nat) (s : Int) (l : List Int), (∀ j : Int, 0 ≤ j → j ≤ s → vm2.stack[j.toNat]? = vm.stack[j.toNat]?) →
+      stackInts vm k s = some l → stackInts vm2 k s = some l := by
+  intro k
+  induction k with
+  | zero => intro s l _ h; exact h
+  | succ k ih =>
+    intro s l hst h
+    unfold stackInts at h ⊢
+    rw [hsz, hms]
+    split at h
+    · cases h
+    · rename_i hb
+      rw [if_neg hb]
+      simp only at h ⊢
+      rw [hst s (by omega) (Int.le_refl _)]
+      split at h
+      · cases h
+      · rename_i hsz'
+        rw [if_neg hsz']
+        split at h
+        · rename_i v hv
+          rw [hobj _ (by rw [hv]; simp), hv]
+          simp only
+          cases hr : stackInts vm k (s - 1) with
+          | none => rw [hr] at h; cases h
+          | some l' =>
+            rw [hr] at h
+            rw [ih (s - 1) l' (fun j h0 hj => hst j h0 (by omega)) hr]
+            exact h
+        · cases h
+
+/-- the handler of `INT c`: one cell from the allocator, one push -/
+theorem exec_INT (md : Module) (ins : Instr) (orc : Oracle) (hop : ins.op = .INT) (vm vm' : Vm)
+    (h : (exec md ins orc).run vm = .ok ((), vm')) :
+    vm.gc.free ≠ 0 ∧ vm'.gc.mem = vm.gc.mem.setObj vm.gc.free (some (.int (bv32 ins.w0))) ∧
+    vm'.stack = vm.stack.setIfInBounds (vm.sp + 1).toNat (.addr vm.gc.free) ∧ 0 ≤ vm.sp + 1 ∧ vm.sp + 1 < vm.stackSize ∧
+    vm'.sp = vm.sp + 1 ∧ vm'.fp = vm.fp ∧ vm'.pp = vm.pp ∧ vm'.ip = vm.ip ∧ vm'.running = vm.running ∧ vm'.stackSize = vm.stackSize := by
+  exec_unfold hop at h
+  obtain ⟨sp, s0, h0, hA⟩ := (run_bind_ok _ _ _ _ _).mp h
+  obtain ⟨_, e0'⟩ := getSp_run _ _ _ h0
+  rw [e0'] at hA
+  obtain ⟨loc, v1, h1, hB⟩ := (run_bind_ok _ _ _ _ _).mp hA
+  -- the allocation
+  unfold alloc at h1
+  obtain ⟨v0, v0', h3, h4⟩ := (run_bind_ok _ _ _ _ _).mp h1
+  obtain ⟨e3, e3'⟩ := get_run _ _ _ h3
+  rw [e3, e3'] at h4
+  split at h4
+  · exact absurd h4 (exitVm_run _ _ _ _ _)
+  · rename_i g l hg
+    obtain ⟨u, v2, h5, h6⟩ := (run_bind_ok _ _ _ _ _).mp h4
+    have e5 := set_run _ _ _ _ h5
+    obtain ⟨e6, e7⟩ := (run_pure_ok _ _ _ _).mp h6
+    unfold Gc.alloc at hg
+    simp only at hg
+    split at hg
+    · cases hg
+    · rename_i hfree
+      have hmem : g.mem = vm.gc.mem.setObj vm.gc.free (some (.int (bv32 ins.w0))) ∧ l = vm.gc.free := by
+        split at hg <;> (cases hg; exact ⟨rfl, rfl⟩)
+      -- the push
+      unfold Vm.pushAddr at hB
+      obtain ⟨v3, s3, h7, hC⟩ := (run_bind_ok _ _ _ _ _).mp hB
+      obtain ⟨e7a, e7b⟩ := get_run _ _ _ h7
+      rw [e7a, e7b] at hC
+      obtain ⟨v4, s4, h8, hD⟩ := (run_bind_ok _ _ _ _ _).mp hC
+      obtain ⟨e8, e8'⟩ := liftE_run _ _ _ _ h8
+      have e9 := set_run _ _ _ _ hD
+      rw [e7, e5] at e8
+      rw [e9]
+      unfold pushP at e8
+      simp only [bind, Except.bind] at e8
+      split at e8
+      · cases e8
+      · rename_i vc hc
+        obtain ⟨ec, bc⟩ := checkP_regs hc
+        subst ec
+        simp only at bc
+        unfold wrP at e8
+        split at e8
+        · cases e8
+        · rename_i hb
+          simp only at hb
+          cases e8
+          rw [e6, hmem.2] 
+          exact ⟨hfree, hmem.1, rfl, by omega, by omega, rfl, rfl, rfl, rfl, rfl, rfl⟩
+
+/-- **`INT` extends the run of constants on the stack**, when the allocator hands it a free cell: the integers the top slots point at
+are the new constant followed by those that were there -/
+theorem int_extends_consts (md : Module) (ins : Instr) (orc : Oracle) (hop : ins.op = .INT) (vm vm' : Vm) (hso : StackOk vm)
+    (hfresh : AllocFresh vm) (k : Nat) (l : List Int) (hl : stackInts vm k vm.sp = some l)
+    (h : (exec md ins orc).run vm = .ok ((), vm')) :
+    stackInts vm' (k + 1) vm'.sp = some ((bv32 ins.w0).toInt :: l) := by
+  obtain ⟨hf0, hmem, hstk, b0, b1, hsp, _, _, _, _, hsz⟩ := exec_INT md ins orc hop vm vm' h
+  rcases hfresh with hz | ⟨hlt, hnone⟩
+  · exact absurd hz hf0
+  have hms : vm'.gc.mem.size = vm.gc.mem.size := by rw [hmem]; simp
+  have hobj : ∀ a, vm.gc.mem.objAt a ≠ none → vm'.gc.mem.objAt a = vm.gc.mem.objAt a := by
+    intro a ha
+    rw [hmem, Mem.objAt_setObj]
+    have : ¬ (vm.gc.free = a ∧ vm.gc.free < vm.gc.mem.size) := by
+      rintro ⟨e, _⟩; rw [← e] at ha; exact ha hnone
+    rw [if_neg this]
+  have hnew : vm'.gc.mem.objAt vm.gc.free = some (.int (bv32 ins.w0)) := by
+    rw [hmem, Mem.objAt_setObj]; simp [hlt]
+  have hst : ∀ j : Int, 0 ≤ j → j ≤ vm.sp → vm'.stack[j.toNat]? = vm.stack[j.toNat]? := by
+    intro j h0 hj
+    rw [hstk]
+    have : (vm.sp + 1).toNat ≠ j.toNat := by omega
+    simp [Array.getElem?_setIfInBounds, this]
+  have hold := stackInts_mono hsz hms hobj k vm.sp l hst hl
+  have htop : vm'.stack[(vm.sp + 1).toNat]? = some (.addr vm.gc.free) := by
+    rw [hstk]
+    have : (vm.sp + 1).toNat < vm.stack.size := by unfold StackOk at hso; rw [hso]; omega
+    simp [Array.getElem?_setIfInBounds, this]
+  rw [hsp]
+  unfold stackInts
+  rw [hsz, if_neg (by omega)]
+  simp only
+  have ha : ((vm'.stack[(vm.sp + 1).toNat]?).getD .unknown).asAddr = vm.gc.free := by rw [htop]; rfl
+  rw [ha, hms]
+  have e : vm.sp + 1 - 1 = vm.sp := by omega
+  split
+  · rename_i hgt; exact absurd hgt (by omega)
+  · rw [hnew]
+    simp only
+    rw [e, hold]
+    rfl
+
+
+/-! ### helpers about one step -/
 
 /-- at a handler entry the instruction is a handler opcode or a LABEL -/
 theorem atHandler_op {vm : Vm} (h : AtHandler md hm vm) {i : Instr} (hi : md.code[vm.ip]? = some i) :
@@ -133,6 +393,7 @@ theorem ghostNext_other {vm : Vm} {recs : List Rec} {i : Instr} (hi : md.code[vm
     (h1 : i.op ≠ .MARK) (h2 : i.op ≠ .RET) (h3 : i.op ≠ .RETHROW) (h4 : i.op ≠ .CLEAR_STACK) : ghostNext md vm recs = recs := by
   unfold ghostNext
   simp only [hi]
+
 
 /-- `fp` is left alone by every step that is not a frame operation -/
 theorem step_fp_kept (orc : Oracle) (vm vm' : Vm) (i : Instr) (hi : md.code[vm.ip]? = some i) (hrun : vm.running = 1)
@@ -169,87 +430,6 @@ theorem step_fp_kept (orc : Oracle) (vm vm' : Vm) (i : Instr) (hi : md.code[vm.i
     · exact absurd h n7
     · exact absurd h n6
 
-/-- steps inside the running activation keep the global invariant -/
-theorem sound_inside (hf : flowOk md hm = true) (orc : Oracle) (vm vm' : Vm) (recs : List Rec)
-    (hs : Sound md hm bot vm recs) (hin : Inside md hm vm) (hstep : (step md orc).run vm = .ok ((), vm'))
-    (hok : StepOk md hm vm vm' recs) : Sound md hm bot vm' (ghostNext md vm recs) ∨ vm'.running = 3 := by
-  obtain ⟨hso, hg, hfp, hpp, hwf⟩ := hs
-  obtain ⟨hkeep, hside⟩ := hok
-  have hso' := (step_keeps_stackOk md orc vm vm' hso hstep).1
-  have hrun : vm.running = 1 := by rcases hg with h | h <;> exact h.1
-  obtain ⟨a1, a2, a3⟩ := step_good hf orc vm vm' hg hin hstep
-  suffices key : Good md hm vm' → Sound md hm bot vm' (ghostNext md vm recs) by
-    rcases a3 with a3 | a3 | hstop
-    · exact Or.inl (key (Or.inl a3.1))
-    · exact Or.inl (key (Or.inr a3.1))
-    · exact Or.inr hstop
-  intro hg'
-  cases hi : md.code[vm.ip]? with
-  | none =>
-    exfalso
-    unfold step at hstep
-    obtain ⟨v0, s0, h0, hA⟩ := (run_bind_ok _ _ _ _ _).mp hstep
-    obtain ⟨e0, e0'⟩ := get_run _ _ _ h0
-    rw [e0, e0', hi] at hA
-    exact crash_run _ _ _ _ hA
-  | some i =>
-    obtain ⟨n1, n2, n3, n4, n5, n6⟩ := hin i hi
-    by_cases hmark : i.op = .MARK
-    · -- a new record
-      have hah : AtHeight md hm vm := by
-        rcases hg with h | h
-        · exact h
-        · rcases atHandler_op h hi with e | e | e | e <;> rw [hmark] at e <;> cases e
-      obtain ⟨_, st, hst, hinv⟩ := hah
-      obtain ⟨hm', r1, r2, r3, _, _, _, r7⟩ := step_MARK_regs md orc vm vm' i hi hmark hrun hstep
-      obtain ⟨_, _, _, _, _, _, _, b1, b2⟩ := markP_regs hm'
-      simp only at b1 b2
-      obtain ⟨vmx, ex, mp⟩ := markP_spec { vm with ip := vm.ip + 1 } i.w0 hso b1 b2
-      rw [hm'] at ex; cases ex
-      obtain ⟨k1, _⟩ := frameOkAt_MARK hi hst hmark (frame_at hf hi)
-      obtain ⟨sr, e1, e2, e3⟩ := hAt_spec k1
-      have hgn : ghostNext md vm recs = { F := vm.sp + 5, pp := vm.pp, fp := vm.fp, ra := i.w0 } :: recs := by
-        unfold ghostNext; simp only [hi, hmark]
-      rw [hgn]
-      refine ⟨hso', hg', by rw [r2]; rfl, ?_, ?_⟩
-      · rw [r3]; exact PPIn.cons _ hpp
-      · refine ⟨hfp, hpp, ⟨?_, ?_, ?_, sr, e1, ?_⟩, ?_⟩
-        · have := mp.w1; simp only at this ⊢
-          have e : vm.sp + 5 - 4 = vm.sp + 1 := by omega
-          rw [e]; exact this
-        · have := mp.w4; simp only at this ⊢
-          have e : vm.sp + 5 - 1 = vm.sp + 4 := by omega
-          rw [e]; exact this
-        · exact mp.w5
-        · simp only
-          rw [fnParamsAt_same e3, e2]; omega
-        · refine WF_transfer recs hwf (fun r hr => hkeep r hr ?_)
-          rw [hgn]; exact List.mem_cons_of_mem _ hr
-    · by_cases hclr : i.op = .CLEAR_STACK
-      · -- `fp := pp`: the records of calls in preparation are dropped
-        obtain ⟨_, c2, c3, _, _, _, _⟩ := step_CLEAR_STACK_regs md orc vm vm' i hi hclr hstep
-        have hgn : ghostNext md vm recs = recs.dropWhile (fun r => decide (r.F ≠ vm.pp)) := by
-          unfold ghostNext; simp only [hi, hclr]
-        obtain ⟨t1, t2⟩ := topF_dropWhile (bot := bot) recs hpp
-        rw [hgn]
-        refine ⟨hso', hg', by rw [c2, t1], by rw [c3]; exact t2, ?_⟩
-        refine WF_transfer _ (WF_dropWhile _ recs hwf) (fun r hr => hkeep r ?_ ?_)
-        · exact (List.dropWhile_sublist _).subset hr
-        · rw [hgn]; exact hr
-      · have hgn := ghostNext_other (md := md) (vm := vm) (recs := recs) hi hmark n2 n3 hclr
-        have hfp' : vm'.fp = vm.fp := by
-          refine step_fp_kept orc vm vm' i hi hrun hstep ⟨hmark, hclr, n1, n2, n3, n4, n5⟩ (fun hmk => ?_)
-          have hah : AtHeight md hm vm := by
-            rcases hg with h | h
-            · exact h
-            · rcases atHandler_op h hi with e | e | e | e <;> rw [hmk] at e <;> cases e
-          obtain ⟨_, st, hst, _⟩ := hah
-          obtain ⟨ds, hds, hc, _, _⟩ := frameOkAt_MK_INIT_ARRAY hi hst hmk (frame_at hf hi)
-          exact ⟨ds, by rw [n6 hmk st hst, hds], hc⟩
-        rw [hgn]
-        refine ⟨hso', hg', by rw [hfp', hfp], by rw [a1]; exact hpp, ?_⟩
-        exact WF_transfer recs hwf (fun r hr => hkeep r hr (by rw [hgn]; exact hr))
-
 theorem getFunc_val {vm vm' : Vm} {a env fip : Nat} (h : (getFunc a).run vm = .ok ((env, fip), vm')) :
     vm.gc.mem.objAt a = some (.func env fip) := by
   unfold getFunc at h
@@ -259,61 +439,6 @@ theorem getFunc_val {vm vm' : Vm} {a env fip : Nat} (h : (getFunc a).run vm = .o
   · obtain ⟨e1, _⟩ := (run_pure_ok _ _ _ _).mp h2
     cases e1; exact ho
   · exact absurd h2 (crash_run _ _ _ _)
-
-/-- **CALL.**  With a function value of the right arity on top (`CallOk`), the callee is entered at its recorded height 0 with
-`pp = fp` (its frame base is the record the matching MARK pushed) and `sp = pp + nparams`; a nil function value raises and control
-is at the handler of the CALL's address.  The live records are unchanged. -/
-theorem sound_CALL (hf : flowOk md hm = true) (orc : Oracle) (vm vm' : Vm) (recs : List Rec) (i : Instr)
-    (hi : md.code[vm.ip]? = some i) (hop : i.op = .CALL)
-    (hs : Sound md hm bot vm recs) (hstep : (step md orc).run vm = .ok ((), vm'))
-    (hok : StepOk md hm vm vm' recs) : Sound md hm bot vm' (ghostNext md vm recs) := by
-  obtain ⟨hso, hg, hfp, hpp, hwf⟩ := hs
-  obtain ⟨hkeep, hside⟩ := hok
-  have hso' := (step_keeps_stackOk md orc vm vm' hso hstep).1
-  obtain ⟨hcall, _, _⟩ := hside i hi
-  have hgn := ghostNext_other (md := md) (vm := vm) (recs := recs) hi (by rw [hop]; decide) (by rw [hop]; decide) (by rw [hop]; decide) (by rw [hop]; decide)
-  rw [hgn]
-  have hwf' : WF md hm bot vm' recs := WF_transfer recs hwf (fun r hr => hkeep r hr (by rw [hgn]; exact hr))
-  obtain ⟨s2, he, hcase⟩ := step_exec md orc vm vm' i hi hstep
-  obtain ⟨a, env, fip, hr1, hr2, hcp⟩ := exec_CALL md i orc hop _ _ he
-  obtain ⟨b1, ea, _⟩ := rdAddr_val hr1
-  have hobj := getFunc_val hr2
-  simp only at b1 ea hobj
-  have hcallee : calleeOf vm = some (env, fip) := by
-    unfold calleeOf
-    rw [if_neg b1, ← ea, hobj]
-  have hrun : vm.running = 1 := by rcases hg with h | h <;> exact h.1
-  unfold callP at hcp
-  by_cases h0 : fip = 0
-  · -- nil function value: nil_pointer is raised, the handler of this address is entered
-    simp only [h0, beq_self_eq_true, if_true] at hcp
-    rcases hcase with ⟨hne, _⟩ | ⟨_, hd, hh, e⟩
-    · rw [hcp] at hne; exact absurd rfl hne
-    · rw [hcp] at hh e
-      simp only at hh e
-      have hip : vm.ip + 1 - 1 = vm.ip := by omega
-      rw [hip] at hh
-      obtain ⟨k1, k2⟩ := handler_entry hf hh
-      have f1 : vm'.fp = vm.fp := by rw [e]
-      have f2 : vm'.pp = vm.pp := by rw [e]
-      have f3 : vm'.ip = hd := by rw [e]
-      have f4 : vm'.running = 1 := by rw [e]
-      exact ⟨hso', Or.inr ⟨f4, by rw [f3]; exact k1, by rw [f3]; exact k2⟩, by rw [f1]; exact hfp, by rw [f2]; exact hpp, hwf'⟩
-  · have hne0 : (fip == 0) = false := by simpa using h0
-    simp only [hne0, Bool.false_eq_true, if_false] at hcp
-    rcases hcall hop env fip hcallee with h00 | ⟨hmem, harity⟩
-    · exact absurd h00 h0
-    rcases hcase with ⟨_, e⟩ | ⟨h2, _⟩
-    · obtain ⟨st0, hs0, hh0⟩ := flowOk_starts hf hmem
-      have f1 : vm'.fp = vm.fp := by rw [e, hcp]
-      have f2 : vm'.pp = vm.fp := by rw [e, hcp]
-      have f3 : vm'.ip = fip := by rw [e, hcp]
-      have f4 : vm'.running = 1 := by rw [e, hcp]; exact hrun
-      have f5 : vm'.sp = vm.sp - 1 := by rw [e, hcp]
-      refine ⟨hso', Or.inl ⟨f4, st0, by rw [f3]; exact hs0, ?_⟩, by rw [f1]; exact hfp, ?_, hwf'⟩
-      · rw [f5, f2, f3, hh0]; omega
-      · rw [f2, hfp]; exact PPIn_topF recs
-    · rw [hcp] at h2; simp only at h2; omega
 
 /-- what RET does given an intact innermost record: registers restored from it, `sp` at the slot of the result -/
 theorem ret_through_record {vm v1 : Vm} {r : Rec} (hso : StackOk vm) (hfp : vm.fp = r.F)
@@ -333,71 +458,396 @@ theorem ret_through_record {vm v1 : Vm} {r : Rec} (hso : StackOk vm) (hfp : vm.f
   · rw [e3, d1]; rfl
   · rw [e4, d3]; rfl
 
-/-- **RET.**  Through an intact record the machine returns to the MARK's return address at ITS recorded height — the frame is popped
-and exactly the result is pushed: `sp = (sp before the MARK) + 1` —, with `fp` and `pp` of the caller restored.  The record is no
-longer live. -/
+
+end
+
+/-- the stack array after a step, from the stack array after the handler (the exception dispatch does not touch it) -/
+theorem step_stack_of_exec {md : Module} (orc : Oracle) (vm vm' : Vm) (i : Instr) (hi : md.code[vm.ip]? = some i)
+    (hstep : (step md orc).run vm = .ok ((), vm'))
+    (hx : ∀ s2, (exec md i orc).run { vm with ip := vm.ip + 1 } = .ok ((), s2) → s2.stack = vm.stack) : vm'.stack = vm.stack := by
+  obtain ⟨s2, he, hcase⟩ := step_exec md orc vm vm' i hi hstep
+  rcases hcase with ⟨_, e⟩ | ⟨_, hd, _, e⟩
+  · rw [e]; exact hx s2 he
+  · rw [e]; exact hx s2 he
+
+
+section
+variable {md : Module} {hm : HMap} {bot : Int}
+
+theorem recTop_le_sp {pp : Int} {np h : Nat} {ms : List Nat} (hn : marksNested h ms = true) :
+    recTop pp (pp + (np : Int)) ms ≤ pp + (np : Int) + (h : Int) := by
+  cases ms with
+  | nil => simp only [recTop]; omega
+  | cons m rest =>
+    unfold marksNested at hn
+    simp only [Bool.and_eq_true, decide_eq_true_eq] at hn
+    simp only [recTop]; omega
+
+/-- at MK_INIT_ARRAY the extents on the stack are the recorded constants: they are the last `dims` constants of the `INT` run -/
+theorem Here.mk_init (hf : flowOk md hm = true) {vm : Vm} {recs : List Rec} (hh : Here md hm bot vm recs) {i : Instr} {st : AbsSt}
+    (hi : md.code[vm.ip]? = some i) (hs : hm[vm.ip]? = some (some st)) (hop : i.op = .MK_INIT_ARRAY) :
+    stackInts vm i.w0 vm.sp = initExts st i.w0 := by
+  obtain ⟨ds, hds, _, _, hlen, hdse⟩ := pendOkAt_MK_INIT_ARRAY hi hs hop (flowOk_pend hf (lt_size_of_getElem? hi))
+  rw [hds, hdse]
+  exact stackInts_take vm _ _ _ hh.consts _ hlen
+
+/-- a step on LABEL at a handler entry: only `ip` moves, and the next address is a handler entry again -/
+theorem step_LABEL_handler (hf : flowOk md hm = true) (orc : Oracle) (vm vm' : Vm) (i : Instr) (hi : md.code[vm.ip]? = some i)
+    (hop : i.op = .LABEL) (hh : AtHandler md hm vm) (hstep : (step md orc).run vm = .ok ((), vm')) :
+    vm' = { vm with ip := vm.ip + 1 } ∧ AtHandler md hm vm' := by
+  obtain ⟨hrun, hent, st, hs⟩ := hh
+  have he : simpleEffect i = some (0, 0) := by simp [simpleEffect, hop, binOpOf, unOpOf, convOf, nilCmpOf, strAddOf, arrOpOf, mkArrayElem]
+  obtain ⟨st', e1, _, _⟩ := flow_table hf hi hs he (by rw [hop]; decide)
+  obtain ⟨s2, hx, hcase⟩ := step_exec md orc vm vm' i hi hstep
+  exec_unfold hop at hx
+  obtain ⟨sp, s0, h0, hA⟩ := (run_bind_ok _ _ _ _ _).mp hx
+  obtain ⟨_, e0'⟩ := getSp_run _ _ _ h0
+  obtain ⟨_, e1'⟩ := (run_pure_ok _ _ _ _).mp hA
+  rw [e0'] at e1'
+  subst e1'
+  rcases hcase with ⟨_, rfl⟩ | ⟨h2, _⟩
+  · refine ⟨rfl, hrun, ?_, st', e1⟩
+    unfold handlerEntry at hent
+    simp only [hi, Bool.or_eq_true, Bool.and_eq_true, beq_iff_eq] at hent
+    rcases hent with hent | ⟨_, hnext⟩
+    · unfold isHandlerOp at hent; rw [hop] at hent; simp at hent
+    · unfold handlerEntry
+      cases hn : md.code[vm.ip + 1]? with
+      | none => simp [hn] at hnext
+      | some j => simp only [hn] at hnext ⊢; simp [hnext]
+  · simp only at h2; omega
+
+/-- CLEAR_STACK, entered with any `sp` and the pending records above `pp`: they are dropped, the machine is at height 0 -/
+theorem sound_CLEAR (hf : flowOk md hm = true) (orc : Oracle) (vm vm' : Vm) (recs : List Rec) (i : Instr) (st : AbsSt)
+    (hi : md.code[vm.ip]? = some i) (hs : hm[vm.ip]? = some (some st)) (hop : i.op = .CLEAR_STACK)
+    (hso : StackOk vm) (hd : Desc5 recs) (hwf : WF md hm bot vm recs) (hsp : SplitH bot vm.pp recs)
+    (hstep : (step md orc).run vm = .ok ((), vm')) : Sound md hm bot vm' (ghostNext md vm recs) := by
+  have hso' := (step_keeps_stackOk md orc vm vm' hso hstep).1
+  obtain ⟨r1, r2, r3, _, r5, r6, r7⟩ := step_CLEAR_STACK_regs md orc vm vm' i hi hop hstep
+  have hstk : vm'.stack = vm.stack := step_stack_of_exec orc vm vm' i hi hstep (fun s2 h2 => by
+    rw [exec_CLEAR_STACK md i orc hop _ _ h2]; rfl)
+  obtain ⟨hn, hk⟩ := frameOkAt_CLEAR_STACK hi hs hop (frame_at hf hi)
+  obtain ⟨st', e1, e2, e3⟩ := hAt_spec hk
+  have hmk := mAt_marksAt (pendOkAt_CLEAR_STACK hi hs hop (flowOk_pend hf (lt_size_of_getElem? hi)))
+  have hgn : ghostNext md vm recs = recs.dropWhile (fun r => decide (r.F ≠ vm.pp)) := by
+    unfold ghostNext; simp only [hi, hop]
+  obtain ⟨rest, edw, ht, hsuf⟩ := hsp.dropWhile
+  rw [hgn, edw]
+  refine ⟨hso', by rw [r2, ht], Desc5_suffix recs rest hsuf hd,
+    WF_transfer rest (WF_suffix recs rest hsuf hwf) (fun r _ => words_of_stack_eq hstk r), Or.inl ⟨⟨r6, st', by rw [r5]; exact e1, ?_⟩, ?_, ?_⟩⟩
+  · rw [r5, fnParamsAt_same e3, r3, r1, e2, hn]; unfold fnParamsAt; omega
+  · rw [r5, hmk, r3]
+    exact ⟨[], rest, rfl, rfl, ht⟩
+  · rw [r5, intRun_succ md vm.ip i hi]
+    simp [hop, stackInts_zero]
+
+/-- steps inside the running activation (anything but CALL / RET / RETHROW / HALT / UNHANDLED_EXCEPTION), from a machine at its
+recorded height, keep the global invariant -/
+theorem sound_inside (hf : flowOk md hm = true) (orc : Oracle) (vm vm' : Vm) (recs : List Rec) (i : Instr)
+    (hi : md.code[vm.ip]? = some i)
+    (hnot : i.op ≠ .CALL ∧ i.op ≠ .RET ∧ i.op ≠ .RETHROW ∧ i.op ≠ .HALT ∧ i.op ≠ .UNHANDLED_EXCEPTION)
+    (hso : StackOk vm) (hfp : vm.fp = topF bot recs) (hd : Desc5 recs) (hwf : WF md hm bot vm recs) (hh : Here md hm bot vm recs)
+    (hfresh : i.op = .INT → AllocFresh vm)
+    (hstep : (step md orc).run vm = .ok ((), vm')) : Sound md hm bot vm' (ghostNext md vm recs) ∨ vm'.running = 3 := by
+  obtain ⟨n1, n2, n3, n4, n5⟩ := hnot
+  have hah := hh.height
+  obtain ⟨hrun, st, hs, hinv⟩ := hah
+  have hma : marksAt hm vm.ip = st.marks := marksAt_eq hs
+  have hpend := flowOk_pend hf (lt_size_of_getElem? hi)
+  have hnest := pendOkAt_nested hi hs hpend
+  have hso' := (step_keeps_stackOk md orc vm vm' hso hstep).1
+  have hmkinit : i.op = .MK_INIT_ARRAY → stackInts vm i.w0 vm.sp = initExts st i.w0 := fun hop => hh.mk_init hf hi hs hop
+  -- no word of a live record is written
+  have hsplit := hh.split
+  rw [hma] at hsplit
+  have hkeep : ∀ r, r ∈ recs → slot vm' (r.F - 4) = slot vm (r.F - 4) ∧ slot vm' (r.F - 1) = slot vm (r.F - 1) ∧ slot vm' r.F = slot vm r.F :=
+    fun r hr => words_of_below (step_keeps_records hf orc vm vm' i st hi hs hrun hinv ⟨n2, n3⟩ hmkinit hstep) r (hsplit.le_top hd r hr)
+  have hwf' : WF md hm bot vm' recs := WF_transfer recs hwf hkeep
+  have htop : ∀ r, r ∈ recs → r.F ≤ vm.sp := fun r hr => by
+    have h1 := hsplit.le_top hd r hr
+    have h2 := recTop_le_sp (pp := vm.pp) (np := fnParamsAt md vm.ip) hnest
+    omega
+  by_cases hmark : i.op = .MARK
+  · -- MARK: a new pending record
+    left
+    obtain ⟨hm', r1, r2, r3, _, r5, r6, r7⟩ := step_MARK_regs md orc vm vm' i hi hmark hrun hstep
+    obtain ⟨_, _, _, _, _, _, _, b1, b2⟩ := markP_regs hm'
+    simp only at b1 b2
+    obtain ⟨vmx, ex, mp⟩ := markP_spec { vm with ip := vm.ip + 1 } i.w0 hso b1 b2
+    rw [hm'] at ex; cases ex
+    obtain ⟨k1, k2⟩ := frameOkAt_MARK hi hs hmark (frame_at hf hi)
+    obtain ⟨sr, e1, e2, e3⟩ := hAt_spec k1
+    obtain ⟨m1, m2, m3⟩ := pendOkAt_MARK hi hs hmark hpend
+    obtain ⟨sn, f1, f2, f3⟩ := hAt_spec k2
+    have hgn : ghostNext md vm recs = { F := vm.sp + 5, pp := vm.pp, fp := vm.fp, ra := i.w0 } :: recs := by
+      unfold ghostNext; simp only [hi, hmark]
+    rw [hgn]
+    refine ⟨hso', by rw [r2]; rfl, ⟨fun x hx => by have := htop x hx; simp only; omega, hd⟩, ⟨hfp, ⟨?_, ?_, mp.w5, ⟨sr, e1, ?_⟩, m3⟩, ?_, hwf'⟩, Or.inl ⟨?_, ?_, ?_⟩⟩
+    · have := mp.w1; simp only at this ⊢
+      have e : vm.sp + 5 - 4 = vm.sp + 1 := by omega
+      rw [e]; exact this
+    · have := mp.w4; simp only at this ⊢
+      have e : vm.sp + 5 - 1 = vm.sp + 4 := by omega
+      rw [e]; exact this
+    · simp only
+      rw [fnParamsAt_same e3, e2]; omega
+    · -- what the function will find below the record when the call returns: the live records of now
+      simp only
+      rw [fnParamsAt_same e3, mAt_marksAt m2]
+      exact hsplit
+    · exact (atHeight_next hf hinv k2 r6 r5 r3 (by rw [r1]; omega)).1
+    · rw [r5, mAt_marksAt m1, r3, fnParamsAt_same f3]
+      obtain ⟨pend, rest, e, hF, ht⟩ := hsplit
+      refine ⟨{ F := vm.sp + 5, pp := vm.pp, fp := vm.fp, ra := i.w0 } :: pend, rest, by rw [e]; rfl, ?_, ht⟩
+      simp only [List.map_cons, hF, List.cons.injEq, and_true]
+      omega
+    · rw [r5, intRun_succ md vm.ip i hi]
+      simp [hmark, stackInts_zero]
+  · by_cases hclr : i.op = .CLEAR_STACK
+    · exact Or.inl (sound_CLEAR hf orc vm vm' recs i st hi hs hclr hso hd hwf
+        (hh.split.toH (by omega)) hstep)
+    · have hgn := ghostNext_other (md := md) (vm := vm) (recs := recs) hi hmark n2 n3 hclr
+      rw [hgn]
+      have hfp' : vm'.fp = vm.fp := by
+        refine step_fp_kept orc vm vm' i hi hrun hstep ⟨hmark, hclr, n1, n2, n3, n4, n5⟩ (fun hmk => ?_)
+        obtain ⟨ds, hds, hc, _, _⟩ := frameOkAt_MK_INIT_ARRAY hi hs hmk (frame_at hf hi)
+        exact ⟨ds, by rw [hmkinit hmk, hds], hc⟩
+      have hmn : marksNext md hm vm.ip = st.marks := marksNext_other hi hs hmark hclr
+      by_cases hint : i.op = .INT
+      · -- INT: one more constant on the stack
+        left
+        have he : simpleEffect i = some (0, 1) := by simp [simpleEffect, hint, binOpOf, unOpOf, convOf, nilCmpOf, strAddOf, arrOpOf, mkArrayElem]
+        obtain ⟨st', q1, _, q3⟩ := flow_table hf hi hs he (by rw [hint]; decide)
+        have hsame := frameOkAt_next hi hs he (frame_at hf hi)
+        have hmk := (pendOkAt_table hi hs he (by rw [hint]; decide) hpend).2
+        obtain ⟨s2, hx, hcase⟩ := step_exec md orc vm vm' i hi hstep
+        obtain ⟨_, _, _, _, _, x5, x6, x7, x8, x9, _⟩ := exec_INT md i orc hint _ _ hx
+        simp only at x5 x6 x7 x8 x9
+        have hvm : vm' = s2 := by
+          rcases hcase with ⟨_, e⟩ | ⟨h2, _⟩
+          · exact e
+          · omega
+        have hc := int_extends_consts md i orc hint { vm with ip := vm.ip + 1 } s2 hso (hfresh hint) _ _
+          (by rw [stackInts_congr vm { vm with ip := vm.ip + 1 } rfl rfl rfl]; exact hh.consts) hx
+        rw [hvm]
+        refine ⟨by rw [← hvm]; exact hso', by rw [x6]; exact hfp, hd, by rw [← hvm]; exact hwf', Or.inl ⟨⟨by omega, st', by rw [x8]; exact q1, ?_⟩, ?_, ?_⟩⟩
+        · rw [x8, fnParamsAt_same hsame, x7, x5]; omega
+        · rw [x8, mAt_marksAt hmk, x7, fnParamsAt_same hsame]; exact hsplit
+        · rw [x8, intRun_succ md vm.ip i hi, if_pos hint]
+          exact hc
+      · -- any other instruction: the successor continues no run of constants
+        have hin : Inside md hm vm := by
+          intro j hj
+          rw [hi] at hj; cases hj
+          exact ⟨n1, n2, n3, n4, n5, fun hop st2 hs2 => by rw [hs] at hs2; cases hs2; exact hmkinit hop⟩
+        obtain ⟨a1, a2, a3⟩ := step_atHeight hf orc vm vm' hh.height hin hstep
+        rcases a3 with ⟨a3, e1, e2, e3⟩ | ⟨a3, _⟩ | a3
+        · left
+          refine ⟨hso', by rw [hfp', hfp], hd, hwf', Or.inl ⟨a3, ?_, ?_⟩⟩
+          · rw [e2, hmn, a1, fnParamsAt_same e1]; exact hsplit
+          · rcases e3 with e3 | ⟨_, j, hj, hji⟩
+            · rw [e3]; exact stackInts_zero _ _
+            · rw [hi] at hj; cases hj; exact absurd hji hint
+        · left
+          refine ⟨hso', by rw [hfp', hfp], hd, hwf', Or.inr ⟨a3, ?_⟩⟩
+          rw [a1]; exact hh.split.toH (by omega)
+        · exact Or.inr a3
+
+
+/-- in a state satisfying the invariant the arity of the callee is all that `CallOk` asks: `fp` is the record of the call in
+preparation (or `pp` for a last call), so the number of slots between it and the function value is the site's `callArgs` -/
+theorem calleeArity_callOk (hf : flowOk md hm = true) {vm : Vm} {recs : List Rec} {i : Instr} (hi : md.code[vm.ip]? = some i)
+    (hop : i.op = .CALL) (hfp : vm.fp = topF bot recs) (hh : Here md hm bot vm recs) (h : CalleeArity md hm vm) : CallOk md vm := by
+  intro env fip hc
+  rcases h env fip hc with h0 | ⟨hmem, har⟩
+  · exact Or.inl h0
+  refine Or.inr ⟨hmem, ?_⟩
+  obtain ⟨_, st, hs, hinv⟩ := hh.height
+  have hsplit := hh.split
+  rw [marksAt_eq hs] at hsplit
+  have hfl := pendOkAt_CALL hi hs hop (flowOk_pend hf (lt_size_of_getElem? hi))
+  have h1 : 1 ≤ st.h := by
+    rcases frameOkAt_CALL hi hs hop (frame_at hf hi) with ⟨_, h⟩ | ⟨_, h⟩ <;> omega
+  unfold callArgs at har
+  rw [hs] at har
+  simp only at har
+  obtain ⟨pend, rest, e, hF, ht⟩ := hsplit
+  cases hms : st.marks with
+  | nil =>
+    rw [hms] at hF har
+    have hp : pend = [] := by cases pend with | nil => rfl | cons p ps => simp at hF
+    subst hp
+    simp only [List.nil_append] at e
+    subst e
+    simp only at har
+    rw [hfp, ht, hinv, har]
+    have : ((fnParamsAt md vm.ip + st.h - 1 : Nat) : Int) = (fnParamsAt md vm.ip : Int) + (st.h : Int) - 1 := by omega
+    rw [this]; omega
+  | cons m ms' =>
+    rw [hms] at hF har hfl
+    simp only [pendFloor] at hfl
+    cases pend with
+    | nil => simp at hF
+    | cons p0 ps =>
+      simp only [List.map_cons, List.cons.injEq] at hF
+      subst e
+      simp only at har
+      have hfp' : vm.fp = p0.F := hfp
+      rw [hfp', hF.1, hinv, har]
+      have : ((st.h - (m + 5) - 1 : Nat) : Int) = (st.h : Int) - (m : Int) - 6 := by omega
+      rw [this]; omega
+
+/-- **CALL.**  With a function value of the right arity on top (`CallOk`), the callee is entered at its recorded height 0 with
+`pp = fp` (its frame base is the record the matching MARK pushed) and `sp = pp + nparams`, no call in preparation; a nil function
+value raises and control is at the handler of the CALL's address.  The live records are unchanged. -/
+theorem sound_CALL (hf : flowOk md hm = true) (orc : Oracle) (vm vm' : Vm) (recs : List Rec) (i : Instr)
+    (hi : md.code[vm.ip]? = some i) (hop : i.op = .CALL)
+    (hso : StackOk vm) (hfp : vm.fp = topF bot recs) (hd : Desc5 recs) (hwf : WF md hm bot vm recs) (hh : Here md hm bot vm recs)
+    (hcall : CallOk md vm)
+    (hstep : (step md orc).run vm = .ok ((), vm')) : Sound md hm bot vm' (ghostNext md vm recs) := by
+  have hso' := (step_keeps_stackOk md orc vm vm' hso hstep).1
+  have hgn := ghostNext_other (md := md) (vm := vm) (recs := recs) hi (by rw [hop]; decide) (by rw [hop]; decide) (by rw [hop]; decide) (by rw [hop]; decide)
+  rw [hgn]
+  have hstk : vm'.stack = vm.stack := step_stack_of_exec orc vm vm' i hi hstep (fun s2 h2 => by
+    obtain ⟨a, env, fip, _, _, e⟩ := exec_CALL md i orc hop _ _ h2
+    rw [e]; unfold callP; split <;> rfl)
+  have hwf' : WF md hm bot vm' recs := WF_transfer recs hwf (fun r _ => words_of_stack_eq hstk r)
+  obtain ⟨s2, he, hcase⟩ := step_exec md orc vm vm' i hi hstep
+  obtain ⟨a, env, fip, hr1, hr2, hcp⟩ := exec_CALL md i orc hop _ _ he
+  obtain ⟨b1, ea, _⟩ := rdAddr_val hr1
+  have hobj := getFunc_val hr2
+  simp only at b1 ea hobj
+  have hcallee : calleeOf vm = some (env, fip) := by
+    unfold calleeOf
+    rw [if_neg b1, ← ea, hobj]
+  have hrun : vm.running = 1 := hh.height.1
+  unfold callP at hcp
+  by_cases h0 : fip = 0
+  · -- nil function value: nil_pointer is raised, the handler of this address is entered
+    simp only [h0, beq_self_eq_true, if_true] at hcp
+    rcases hcase with ⟨hne, _⟩ | ⟨_, hdl, hhd, e⟩
+    · rw [hcp] at hne; exact absurd rfl hne
+    · rw [hcp] at hhd e
+      simp only at hhd e
+      have hip : vm.ip + 1 - 1 = vm.ip := by omega
+      rw [hip] at hhd
+      obtain ⟨k1, k2⟩ := handler_entry hf hhd
+      have f1 : vm'.fp = vm.fp := by rw [e]
+      have f2 : vm'.pp = vm.pp := by rw [e]
+      have f3 : vm'.ip = hdl := by rw [e]
+      have f4 : vm'.running = 1 := by rw [e]
+      exact ⟨hso', by rw [f1]; exact hfp, hd, hwf', Or.inr ⟨⟨f4, by rw [f3]; exact k1, by rw [f3]; exact k2⟩, by rw [f2]; exact hh.split.toH (by omega)⟩⟩
+  · have hne0 : (fip == 0) = false := by simpa using h0
+    simp only [hne0, Bool.false_eq_true, if_false] at hcp
+    rcases hcall env fip hcallee with h00 | ⟨hmem, harity⟩
+    · exact absurd h00 h0
+    rcases hcase with ⟨_, e⟩ | ⟨h2, _⟩
+    · obtain ⟨st0, hs0, hh0, hm0, hr0⟩ := flowOk_starts hf hmem
+      have f1 : vm'.fp = vm.fp := by rw [e, hcp]
+      have f2 : vm'.pp = vm.fp := by rw [e, hcp]
+      have f3 : vm'.ip = fip := by rw [e, hcp]
+      have f4 : vm'.running = 1 := by rw [e, hcp]; exact hrun
+      have f5 : vm'.sp = vm.sp - 1 := by rw [e, hcp]
+      refine ⟨hso', by rw [f1]; exact hfp, hd, hwf', Or.inl ⟨⟨f4, st0, by rw [f3]; exact hs0, ?_⟩, ?_, ?_⟩⟩
+      · rw [f5, f2, f3, hh0]; omega
+      · rw [f3, marksAt_eq hs0, hm0, f2]
+        exact ⟨[], recs, rfl, rfl, hfp.symm⟩
+      · rw [f3, hr0]; exact stackInts_zero _ _
+    · rw [hcp] at h2; simp only at h2; omega
+
+/-- RET / RETHROW write one slot, the lowest word of the record they pop: the records below keep their words -/
+theorem ret_keeps_below {vm v1 : Vm} {r : Rec} {rs : List Rec} (hso : StackOk vm) (hfp : vm.fp = r.F) (hd : Desc5 (r :: rs))
+    (hret : retP { vm with ip := vm.ip + 1 } = .ok v1) :
+    ∀ x, x ∈ rs → slot v1 (x.F - 4) = slot vm (x.F - 4) ∧ slot v1 (x.F - 1) = slot vm (x.F - 1) ∧ slot v1 x.F = slot vm x.F := by
+  obtain ⟨b1, b2, b3, b4⟩ := retP_bounds hret
+  simp only at b1 b2 b3 b4
+  obtain ⟨vx, ex, rp⟩ := retP_spec { vm with ip := vm.ip + 1 } hso b1 b2 b3 b4
+  rw [hret] at ex; cases ex
+  have sl : ∀ j, slot ({ vm with ip := vm.ip + 1 } : Vm) j = slot vm j := fun _ => rfl
+  have k := rp.other
+  simp only [sl] at k
+  intro x hx
+  have := hd.1 x hx
+  exact ⟨k _ (by omega), k _ (by omega), k _ (by omega)⟩
+
+/-- **RET.**  Through the innermost live record the machine returns to the MARK's return address at ITS recorded height — the frame is
+popped and exactly the result is pushed: `sp = (sp before the MARK) + 1` —, with `fp` and `pp` of the caller restored, and the
+caller finds the records of its own calls in preparation as it left them. -/
 theorem sound_RET (hf : flowOk md hm = true) (orc : Oracle) (vm vm' : Vm) (recs : List Rec) (i : Instr)
     (hi : md.code[vm.ip]? = some i) (hop : i.op = .RET)
-    (hs : Sound md hm bot vm recs) (hstep : (step md orc).run vm = .ok ((), vm'))
-    (hok : StepOk md hm vm vm' recs) : Sound md hm bot vm' (ghostNext md vm recs) ∧
+    (hso : StackOk vm) (hfp : vm.fp = topF bot recs) (hd : Desc5 recs) (hwf : WF md hm bot vm recs) (hrun : vm.running = 1)
+    (hne : recs ≠ [])
+    (hstep : (step md orc).run vm = .ok ((), vm')) : Sound md hm bot vm' (ghostNext md vm recs) ∧
       ∃ r rs, recs = r :: rs ∧ ghostNext md vm recs = rs ∧ vm'.ip = r.ra ∧ vm'.sp = r.F - 4 ∧ vm'.fp = r.fp ∧ vm'.pp = r.pp ∧ vm'.running = 1 := by
-  obtain ⟨hso, hg, hfp, hpp, hwf⟩ := hs
-  obtain ⟨hkeep, hside⟩ := hok
   have hso' := (step_keeps_stackOk md orc vm vm' hso hstep).1
-  obtain ⟨_, hne, _⟩ := hside i hi
-  have hrun : vm.running = 1 := by rcases hg with h | h <;> exact h.1
   cases recs with
-  | nil => exact absurd rfl (hne (Or.inl hop))
+  | nil => exact absurd rfl hne
   | cons r rs =>
     have hgn : ghostNext md vm (r :: rs) = rs := by unfold ghostNext; simp only [hi, hop, List.tail_cons]
-    obtain ⟨w1, w2, w3, w4⟩ := hwf
+    obtain ⟨w1, w3, wsp, w4⟩ := hwf
     obtain ⟨s2, he, hcase⟩ := step_exec md orc vm vm' i hi hstep
     obtain ⟨v1, hret, hgc⟩ := exec_RET md i orc hop _ _ he
     obtain ⟨q1, q2, q3, q4, q5, _⟩ := ret_through_record hso hfp w3 hret
-    obtain ⟨g1, g2, g3, _, g5, g6, _, _⟩ := gcRunPure_regs hgc
+    obtain ⟨g1, g2, g3, _, g5, g6, _, g8⟩ := gcRunPure_regs hgc
+    have hk1 := ret_keeps_below hso hfp hd hret
     rcases hcase with ⟨_, e⟩ | ⟨h2, _⟩
-    · obtain ⟨_, _, _, st, hst, hht⟩ := w3
+    · obtain ⟨_, _, _, ⟨st, hst, hht⟩, hir⟩ := w3
       rw [hgn]
-      have hwf' : WF md hm bot vm' rs := WF_transfer rs w4 (fun x hx => hkeep x (List.mem_cons_of_mem _ hx) (by rw [hgn]; exact hx))
-      refine ⟨⟨hso', Or.inl ⟨by rw [e]; omega, st, by rw [e, g5, q4]; exact hst, ?_⟩, by rw [e, g2, q2]; exact w1, by rw [e, g3, q3]; exact w2, hwf'⟩,
-        r, rs, rfl, rfl, by rw [e, g5, q4], by rw [e, g1, q1], by rw [e, g2, q2], by rw [e, g3, q3], by rw [e]; omega⟩
-      rw [e, g1, g3, g5, q1, q3, q4]; exact hht
+      have hsl : ∀ j, slot vm' j = slot v1 j := fun j => by rw [e]; unfold slot; rw [g8]
+      have hwf' : WF md hm bot vm' rs := WF_transfer rs w4 (fun x hx => by
+        obtain ⟨k1, k2, k3⟩ := hk1 x hx
+        exact ⟨by rw [hsl, k1], by rw [hsl, k2], by rw [hsl, k3]⟩)
+      have f1 : vm'.ip = r.ra := by rw [e, g5, q4]
+      have f2 : vm'.sp = r.F - 4 := by rw [e, g1, q1]
+      have f3 : vm'.fp = r.fp := by rw [e, g2, q2]
+      have f4 : vm'.pp = r.pp := by rw [e, g3, q3]
+      have f5 : vm'.running = 1 := by rw [e]; omega
+      refine ⟨⟨hso', by rw [f3]; exact w1, hd.2, hwf', Or.inl ⟨⟨f5, st, by rw [f1]; exact hst, ?_⟩, ?_, ?_⟩⟩,
+        r, rs, rfl, rfl, f1, f2, f3, f4, f5⟩
+      · rw [f2, f4, f1]; exact hht
+      · rw [f1, f4]; exact wsp
+      · rw [f1, hir]; exact stackInts_zero _ _
     · omega
 
-/-- **RETHROW.**  The frame is popped like by RET and the exception is raised again in the caller: control is at the handler the
-exception table assigns to the address before the MARK's return address (the CALL), `fp`/`pp` of the caller restored. -/
+/-- **RETHROW.**  The frame (complete or only MARKed) is popped like by RET and the exception is raised again: control is at the
+handler the exception table assigns to the address before the record's return address, `fp`/`pp` restored from the record. -/
 theorem sound_RETHROW (hf : flowOk md hm = true) (orc : Oracle) (vm vm' : Vm) (recs : List Rec) (i : Instr)
     (hi : md.code[vm.ip]? = some i) (hop : i.op = .RETHROW)
-    (hs : Sound md hm bot vm recs) (hstep : (step md orc).run vm = .ok ((), vm'))
-    (hok : StepOk md hm vm vm' recs) : Sound md hm bot vm' (ghostNext md vm recs) := by
-  obtain ⟨hso, hg, hfp, hpp, hwf⟩ := hs
-  obtain ⟨hkeep, hside⟩ := hok
+    (hso : StackOk vm) (hfp : vm.fp = topF bot recs) (hd : Desc5 recs) (hwf : WF md hm bot vm recs)
+    (hne : recs ≠ [])
+    (hstep : (step md orc).run vm = .ok ((), vm')) : Sound md hm bot vm' (ghostNext md vm recs) := by
   have hso' := (step_keeps_stackOk md orc vm vm' hso hstep).1
-  obtain ⟨_, hne, _⟩ := hside i hi
   cases recs with
-  | nil => exact absurd rfl (hne (Or.inr hop))
+  | nil => exact absurd rfl hne
   | cons r rs =>
     have hgn : ghostNext md vm (r :: rs) = rs := by unfold ghostNext; simp only [hi, hop, List.tail_cons]
-    obtain ⟨w1, w2, w3, w4⟩ := hwf
+    obtain ⟨w1, w3, wsp, w4⟩ := hwf
     obtain ⟨s2, he, hcase⟩ := step_exec md orc vm vm' i hi hstep
     obtain ⟨v1, v2, hret, hgc, es2⟩ := exec_RETHROW md i orc hop _ _ he
     obtain ⟨q1, q2, q3, q4, q5, _⟩ := ret_through_record hso hfp w3 hret
-    obtain ⟨g1, g2, g3, _, g5, g6, _, _⟩ := gcRunPure_regs hgc
-    rcases hcase with ⟨hn2, _⟩ | ⟨_, hd, hh, e⟩
+    obtain ⟨g1, g2, g3, _, g5, g6, _, g8⟩ := gcRunPure_regs hgc
+    have hk1 := ret_keeps_below hso hfp hd hret
+    rcases hcase with ⟨hn2, _⟩ | ⟨_, hdl, hhd, e⟩
     · rw [es2] at hn2; exact absurd rfl hn2
-    · obtain ⟨k1, k2⟩ := handler_entry hf hh
+    · obtain ⟨k1, k2⟩ := handler_entry hf hhd
       rw [hgn]
-      have hwf' : WF md hm bot vm' rs := WF_transfer rs w4 (fun x hx => hkeep x (List.mem_cons_of_mem _ hx) (by rw [hgn]; exact hx))
+      have hsl : ∀ j, slot vm' j = slot v1 j := fun j => by rw [e, es2]; unfold slot; simp only; rw [g8]
+      have hwf' : WF md hm bot vm' rs := WF_transfer rs w4 (fun x hx => by
+        obtain ⟨c1, c2, c3⟩ := hk1 x hx
+        exact ⟨by rw [hsl, c1], by rw [hsl, c2], by rw [hsl, c3]⟩)
       have f1 : vm'.fp = v2.fp := by rw [e, es2]
       have f2 : vm'.pp = v2.pp := by rw [e, es2]
-      have f3 : vm'.ip = hd := by rw [e]
+      have f3 : vm'.ip = hdl := by rw [e]
       have f4 : vm'.running = 1 := by rw [e]
-      exact ⟨hso', Or.inr ⟨f4, by rw [f3]; exact k1, by rw [f3]; exact k2⟩, by rw [f1, g2, q2]; exact w1, by rw [f2, g3, q3]; exact w2, hwf'⟩
+      refine ⟨hso', by rw [f1, g2, q2]; exact w1, hd.2, hwf', Or.inr ⟨⟨f4, by rw [f3]; exact k1, by rw [f3]; exact k2⟩, ?_⟩⟩
+      rw [f2, g3, q3]
+      exact wsp.toH (by omega)
 
 /-- **One step of a verified module keeps the global invariant**, under the side conditions `StepOk` -/
 theorem step_sound (hf : flowOk md hm = true) (orc : Oracle) (vm vm' : Vm) (recs : List Rec)
-    (hs : Sound md hm bot vm recs) (hstep : (step md orc).run vm = .ok ((), vm')) (hok : StepOk md hm vm vm' recs) :
+    (hs : Sound md hm bot vm recs) (hstep : (step md orc).run vm = .ok ((), vm')) (hok : StepOk md hm vm recs) :
     Sound md hm bot vm' (ghostNext md vm recs) ∨ vm'.running = 3 ∨ vm'.running = 0 := by
+  obtain ⟨hso, hfp, hd, hwf, hcase⟩ := hs
   cases hi : md.code[vm.ip]? with
   | none =>
     exfalso
@@ -407,33 +857,50 @@ theorem step_sound (hf : flowOk md hm = true) (orc : Oracle) (vm vm' : Vm) (recs
     rw [e0, e0', hi] at hA
     exact crash_run _ _ _ _ hA
   | some i =>
-    by_cases h1 : i.op = .CALL
-    · exact Or.inl (sound_CALL hf orc vm vm' recs i hi h1 hs hstep hok)
+    obtain ⟨c1, c2, c3⟩ := hok i hi
+    have hrun : vm.running = 1 := by
+      rcases hcase with h | h
+      · exact h.height.1
+      · exact h.1.1
     by_cases h2 : i.op = .RET
-    · exact Or.inl (sound_RET hf orc vm vm' recs i hi h2 hs hstep hok).1
+    · exact Or.inl (sound_RET hf orc vm vm' recs i hi h2 hso hfp hd hwf hrun (c2 (Or.inl h2)) hstep).1
     by_cases h3 : i.op = .RETHROW
-    · exact Or.inl (sound_RETHROW hf orc vm vm' recs i hi h3 hs hstep hok)
+    · exact Or.inl (sound_RETHROW hf orc vm vm' recs i hi h3 hso hfp hd hwf (c2 (Or.inr h3)) hstep)
     by_cases h4 : i.op = .HALT
     · right; right
-      obtain ⟨s2, he, hcase⟩ := step_exec md orc vm vm' i hi hstep
+      obtain ⟨s2, he, hc⟩ := step_exec md orc vm vm' i hi hstep
       have := exec_HALT md i orc h4 _ _ he
-      rcases hcase with ⟨_, e⟩ | ⟨hr2, _⟩
+      rcases hc with ⟨_, e⟩ | ⟨hr2, _⟩
       · rw [e, this]
       · rw [this] at hr2; simp at hr2
     by_cases h5 : i.op = .UNHANDLED_EXCEPTION
     · right; left
-      obtain ⟨s2, he, hcase⟩ := step_exec md orc vm vm' i hi hstep
+      obtain ⟨s2, he, hc⟩ := step_exec md orc vm vm' i hi hstep
       have := exec_UNHANDLED md i orc h5 _ _ he
-      rcases hcase with ⟨_, e⟩ | ⟨hr2, _⟩
+      rcases hc with ⟨_, e⟩ | ⟨hr2, _⟩
       · rw [e, this]
       · omega
-    · have hin : Inside md hm vm := by
-        intro j hj
-        rw [hi] at hj; cases hj
-        exact ⟨h1, h2, h3, h4, h5, (hok.2 i hi).2.2⟩
-      rcases sound_inside hf orc vm vm' recs hs hin hstep hok with h | h
-      · exact Or.inl h
-      · exact Or.inr (Or.inl h)
+    rcases hcase with hh | ⟨hah, hsph⟩
+    · -- at the recorded height
+      by_cases h1 : i.op = .CALL
+      · exact Or.inl (sound_CALL hf orc vm vm' recs i hi h1 hso hfp hd hwf hh (calleeArity_callOk hf hi h1 hfp hh (c1 h1)) hstep)
+      · rcases sound_inside hf orc vm vm' recs i hi ⟨h1, h2, h3, h4, h5⟩ hso hfp hd hwf hh c3 hstep with h | h
+        · exact Or.inl h
+        · exact Or.inr (Or.inl h)
+    · -- at a handler entry: CLEAR_STACK or LABEL (RETHROW / UNHANDLED_EXCEPTION are done)
+      have hah0 := hah
+      obtain ⟨_, _, st, hst⟩ := hah0
+      rcases atHandler_op hah hi with h | h | h | h
+      · exact Or.inl (sound_CLEAR hf orc vm vm' recs i st hi hst h hso hd hwf hsph hstep)
+      · exact absurd h h3
+      · exact absurd h h5
+      · left
+        obtain ⟨e, hah'⟩ := step_LABEL_handler hf orc vm vm' i hi h hah hstep
+        have hgn := ghostNext_other (md := md) (vm := vm) (recs := recs) hi (by rw [h]; decide) (by rw [h]; decide) (by rw [h]; decide) (by rw [h]; decide)
+        rw [hgn]
+        have hstk : vm'.stack = vm.stack := by rw [e]
+        refine ⟨(step_keeps_stackOk md orc vm vm' hso hstep).1, by rw [e]; exact hfp, hd,
+          WF_transfer recs hwf (fun r _ => words_of_stack_eq hstk r), Or.inr ⟨hah', by rw [e]; exact hsph⟩⟩
 
 end
 
@@ -442,7 +909,7 @@ calls, each satisfying the side conditions `StepOk` —, the list of live record
 inductive RunsG (md : Module) (hm : HMap) : Nat → Vm → List Rec → Vm → List Rec → Prop
   | zero (vm : Vm) (recs : List Rec) : RunsG md hm 0 vm recs vm recs
   | succ {n : Nat} {vm v1 v2 : Vm} {recs recs2 : List Rec} (orc : Oracle) : vm.running = 1 →
-      (step md orc).run vm = .ok ((), v1) → StepOk md hm vm v1 recs → RunsG md hm n v1 (ghostNext md vm recs) v2 recs2 →
+      (step md orc).run vm = .ok ((), v1) → StepOk md hm vm recs → RunsG md hm n v1 (ghostNext md vm recs) v2 recs2 →
       RunsG md hm (n + 1) vm recs v2 recs2
 
 /-- **whole executions keep the global invariant** (calls, returns, exceptions included) -/
@@ -470,141 +937,50 @@ theorem runsG_sound {md : Module} {hm : HMap} {bot : Int} (hf : flowOk md hm = t
 invariant with no live record -/
 theorem sound_initial {md : Module} {hm : HMap} (hf : flowOk md hm = true) (mem stack gcMode : Nat) :
     Sound md hm (-1) (beginExecute md (Vm.new mem stack gcMode)) [] := by
-  obtain ⟨st, hs, hz⟩ := flowOk_entry hf
+  obtain ⟨st, hs, hz, hm0⟩ := flowOk_entry hf
   have e : beginExecute md (Vm.new mem stack gcMode) = { Vm.new mem stack gcMode with ip := 0, initialized := true, running := 1 } := by
     unfold beginExecute; simp [Vm.new]
   rw [e]
-  refine ⟨?_, Or.inl ⟨rfl, st, hs, ?_⟩, rfl, Or.inl rfl, trivial⟩
+  refine ⟨?_, rfl, trivial, trivial, Or.inl ⟨⟨rfl, st, hs, ?_⟩, ?_, ?_⟩⟩
   · unfold StackOk Vm.new; simp
   · show (-1 : Int) = -1 + (fnParamsAt md 0 : Int) + (st.h : Int)
     unfold fnParamsAt; omega
+  · show Split (-1) (-1) _ (marksAt hm 0) []
+    rw [marksAt_eq hs, hm0]
+    exact ⟨[], [], rfl, rfl, rfl⟩
+  · exact stackInts_zero _ _
 
-/-! ### "frame words are not overwritten": what is proved -/
-
-/-- the three words of every record that stays live are unchanged by the step -/
-def FramesKept (md : Module) (vm vm' : Vm) (recs : List Rec) : Prop :=
-  ∀ r, r ∈ recs → r ∈ ghostNext md vm recs →
-    slot vm' (r.F - 4) = slot vm (r.F - 4) ∧ slot vm' (r.F - 1) = slot vm (r.F - 1) ∧ slot vm' r.F = slot vm r.F
-
-theorem framesKept_of_stack_eq {md : Module} {vm vm' : Vm} {recs : List Rec} (h : vm'.stack = vm.stack) : FramesKept md vm vm' recs := by
-  intro r _ _
-  unfold slot; rw [h]; exact ⟨rfl, rfl, rfl⟩
-
-/-- the stack array after a step, from the stack array after the handler (the exception dispatch does not touch it) -/
-theorem step_stack_of_exec {md : Module} (orc : Oracle) (vm vm' : Vm) (i : Instr) (hi : md.code[vm.ip]? = some i)
-    (hstep : (step md orc).run vm = .ok ((), vm'))
-    (hx : ∀ s2, (exec md i orc).run { vm with ip := vm.ip + 1 } = .ok ((), s2) → s2.stack = vm.stack) : vm'.stack = vm.stack := by
-  obtain ⟨s2, he, hcase⟩ := step_exec md orc vm vm' i hi hstep
-  rcases hcase with ⟨_, e⟩ | ⟨_, hd, _, e⟩
-  · rw [e]; exact hx s2 he
-  · rw [e]; exact hx s2 he
-
-/-- CALL, CLEAR_STACK, JUMP and JUMPZ write no stack slot at all -/
-theorem framesKept_control {md : Module} (orc : Oracle) (vm vm' : Vm) (recs : List Rec) (i : Instr) (hi : md.code[vm.ip]? = some i)
-    (hop : i.op = .CALL ∨ i.op = .CLEAR_STACK ∨ i.op = .JUMP ∨ i.op = .JUMPZ)
-    (hstep : (step md orc).run vm = .ok ((), vm')) : FramesKept md vm vm' recs := by
-  refine framesKept_of_stack_eq (step_stack_of_exec orc vm vm' i hi hstep (fun s2 h2 => ?_))
-  rcases hop with hop | hop | hop | hop
-  · obtain ⟨a, env, fip, _, _, e⟩ := exec_CALL md i orc hop _ _ h2
-    rw [e]; unfold callP; split <;> rfl
-  · rw [exec_CLEAR_STACK md i orc hop _ _ h2]; rfl
-  · exec_unfold hop at h2
-    obtain ⟨sp, s0, h0, hA⟩ := (run_bind_ok _ _ _ _ _).mp h2
-    obtain ⟨_, e0'⟩ := getSp_run _ _ _ h0
-    rw [e0'] at hA
-    rw [modify_run _ _ _ _ hA]
-  · exec_unfold hop at h2
-    obtain ⟨sp, s0, h0, hA⟩ := (run_bind_ok _ _ _ _ _).mp h2
-    obtain ⟨e0, e0'⟩ := getSp_run _ _ _ h0
-    rw [e0, e0'] at hA
-    obtain ⟨a1, s1, h1, hB⟩ := (run_bind_ok _ _ _ _ _).mp hA
-    have e1 := readOnly_rdAddr _ _ _ _ h1
-    rw [e1] at hB
-    obtain ⟨c, s2', h2', hC⟩ := (run_bind_ok _ _ _ _ _).mp hB
-    have e2 := readOnly_getInt _ _ _ _ h2'
-    rw [e2] at hC
-    split at hC
-    · obtain ⟨u, s3, h3, hD⟩ := (run_bind_ok _ _ _ _ _).mp hC
-      rw [modify_run _ _ _ _ hD, modify_run _ _ _ _ h3]
-    · rw [modify_run _ _ _ _ hC]
-
-/-- MARK writes only above the top of stack: every record at or below `sp` keeps its words -/
-theorem framesKept_MARK {md : Module} (orc : Oracle) (vm vm' : Vm) (recs : List Rec) (i : Instr) (hi : md.code[vm.ip]? = some i)
-    (hop : i.op = .MARK) (hrun : vm.running = 1) (hso : StackOk vm) (hbelow : ∀ r, r ∈ recs → r.F ≤ vm.sp)
-    (hstep : (step md orc).run vm = .ok ((), vm')) : FramesKept md vm vm' recs := by
-  intro r hr _
-  obtain ⟨hm', _⟩ := step_MARK_regs md orc vm vm' i hi hop hrun hstep
-  obtain ⟨_, _, _, _, _, _, _, b1, b2⟩ := markP_regs hm'
-  simp only at b1 b2
-  obtain ⟨vmx, ex, mp⟩ := markP_spec { vm with ip := vm.ip + 1 } i.w0 hso b1 b2
-  rw [hm'] at ex; cases ex
-  have hb := hbelow r hr
-  have sl : ∀ j, slot ({ vm with ip := vm.ip + 1 } : Vm) j = slot vm j := fun _ => rfl
-  have k := mp.below
-  simp only [sl] at k
-  exact ⟨k _ (by omega), k _ (by omega), k _ (by omega)⟩
-
-/-- RET writes exactly one slot, the lowest word of the record it pops (the result goes where the saved `pp` was): every record
-strictly below that slot keeps its words -/
-theorem framesKept_RET {md : Module} (orc : Oracle) (vm vm' : Vm) (recs : List Rec) (i : Instr) (hi : md.code[vm.ip]? = some i)
-    (hop : i.op = .RET) (hso : StackOk vm) (hbelow : ∀ r, r ∈ recs.tail → r.F < vm.fp - 4)
-    (hstep : (step md orc).run vm = .ok ((), vm')) : FramesKept md vm vm' recs := by
-  intro r _ hr
-  have hgn : ghostNext md vm recs = recs.tail := by unfold ghostNext; simp only [hi, hop]
-  rw [hgn] at hr
-  have hb := hbelow r hr
-  obtain ⟨s2, he, hcase⟩ := step_exec md orc vm vm' i hi hstep
-  obtain ⟨v1, hret, hgc⟩ := exec_RET md i orc hop _ _ he
-  obtain ⟨b1, b2, b3, b4⟩ := retP_bounds hret
-  simp only at b1 b2 b3 b4
-  obtain ⟨vx, ex, rp⟩ := retP_spec { vm with ip := vm.ip + 1 } hso b1 b2 b3 b4
-  rw [hret] at ex; cases ex
-  have hst : s2.stack = v1.stack := (gcRunPure_regs hgc).2.2.2.2.2.2.2
-  have hr1 : v1.running = vm.running := (retP_regs hret).2.2.1
-  have sl : ∀ j, slot ({ vm with ip := vm.ip + 1 } : Vm) j = slot vm j := fun _ => rfl
-  have k := rp.other
-  simp only [sl] at k
-  have hs2 : ∀ j, slot vm' j = slot v1 j := by
-    intro j
-    rcases hcase with ⟨_, e⟩ | ⟨_, hd, _, e⟩
-    · rw [e]; unfold slot; rw [hst]
-    · rw [e]; unfold slot; simp only; rw [hst]
-  exact ⟨by rw [hs2, k _ (by omega)], by rw [hs2, k _ (by omega)], by rw [hs2, k _ (by omega)]⟩
-
-/-! ### the side conditions as a decidable check on concrete runs (for non-vacuity examples) -/
+/-! ### the side conditions as a decidable check on concrete runs -/
 
 theorem stepOkB_sound {md : Module} {hm : HMap} {vm vm' : Vm} {recs : List Rec} (h : stepOkB md hm vm vm' recs = true) :
-    StepOk md hm vm vm' recs := by
+    StepOk md hm vm recs := by
   unfold stepOkB at h
   simp only [Bool.and_eq_true] at h
-  obtain ⟨h1, h2⟩ := h
-  constructor
-  · intro r hr hg
-    have := (List.all_eq_true.mp h1) r hr
-    simp only [hg, decide_true, Bool.not_true, Bool.false_or, Bool.and_eq_true, beq_iff_eq] at this
-    exact ⟨this.1.1, this.1.2, this.2⟩
-  · intro i hi
-    rw [hi] at h2
-    simp only [Bool.and_eq_true, Bool.or_eq_true, bne_iff_ne, ne_eq, Bool.not_eq_true', beq_iff_eq] at h2
-    obtain ⟨⟨c1, c2⟩, c3⟩ := h2
-    refine ⟨fun hop => ?_, fun hop => ?_, fun hop st hst => ?_⟩
-    · rcases c1 with c1 | c1
-      · exact absurd hop c1
-      · intro env fip hc
-        unfold callOkB at c1
-        rw [hc] at c1
-        simp only [Bool.or_eq_true, beq_iff_eq, Bool.and_eq_true, decide_eq_true_eq] at c1
-        exact c1
-    · rcases c2 with c2 | c2
-      · rcases hop with hop | hop
-        · simp [hop] at c2
-        · simp [hop] at c2
-      · intro he; rw [he] at c2; simp at c2
-    · rcases c3 with c3 | c3
-      · exact absurd hop (by simpa using c3)
-      · rw [hst] at c3; simpa using c3
+  obtain ⟨_, h2⟩ := h
+  intro i hi
+  rw [hi] at h2
+  simp only [Bool.and_eq_true, Bool.or_eq_true, bne_iff_ne, ne_eq, Bool.not_eq_true', beq_iff_eq] at h2
+  obtain ⟨⟨⟨c1, c2⟩, c3⟩, _⟩ := h2
+  refine ⟨fun hop => ?_, fun hop => ?_, fun hop => ?_⟩
+  · rcases c1 with c1 | c1
+    · exact absurd hop c1
+    · intro env fip hc
+      unfold callOkB at c1
+      rw [hc] at c1
+      simp only [Bool.or_eq_true, beq_iff_eq, Bool.and_eq_true, decide_eq_true_eq] at c1
+      exact c1
+  · rcases c2 with c2 | c2
+    · rcases hop with hop | hop
+      · simp [hop] at c2
+      · simp [hop] at c2
+    · intro he; rw [he] at c2; simp at c2
+  · rcases c3 with c3 | c3
+    · exact absurd hop c3
+    · unfold allocFreshB at c3
+      simp only [Bool.or_eq_true, beq_iff_eq, Bool.and_eq_true, decide_eq_true_eq, Option.isNone_iff_eq_none] at c3
+      exact c3
 
-/-- run `n` steps, following the live records and checking the side conditions of every step; `none` if one fails -/
+/-- run `n` steps, following the live records and checking `stepOkB` at every step; `none` if one fails -/
 def runGB (md : Module) (hm : HMap) (orc : Nat → Oracle) : Nat → Vm → List Rec → Option (Vm × List Rec)
   | 0, vm, recs => some (vm, recs)
   | n+1, vm, recs =>
